@@ -394,6 +394,68 @@ def mesolve_states(dims, t1, t2, rho0, times, targets=None):
     return [(st if st.isoper else qutip.ket2dm(st)).full() for st in r.states]
 
 
+# ---- construction histories: several processors built from the SAME t1/t2 container objects --------------------------
+def _container(kind, vals):
+    """a mutable container handed to Processor(t1=...): 'list' | 'ndarray' | 'scalar' | 'none'"""
+    if kind == "none" or vals is None:
+        return None
+    if kind == "scalar":
+        return float(Fraction(vals))
+    fl = [None if x is None else float(Fraction(x)) for x in vals]
+    return np.array(fl, dtype=float) if kind == "ndarray" else fl
+
+
+def build_history(w):
+    """Run a construction history on the implementation and, next to it, the bookkeeping of the CONTRACT written directly:
+    a processor keeps the relaxation times it was built with (a snapshot of the containers at construction) until they are
+    changed through ITS OWN public attribute (in-place `p.t1[q] = x` or assignment `p.t1 = ...`); editing the caller's
+    container or another processor's attribute changes nothing.
+    ops: ["new", pid, cid] | ["edit_caller", cid, q, t1, t2] | ["edit_proc", pid, q, t1, t2] |
+         ["assign", pid, ["list"|"ndarray"|"scalar", t1], [kind, t2]] | ["sim", pid, "pulses"|"qobjevo"|"run"]
+    yields (k, pid, how, processor, expected t1, expected t2) at every "sim"."""
+    _, _, Processor = _impl()
+    dims = list(w["dims"])
+    N = len(dims)
+    cont = {}          # cid -> [t1 container object, t2 container object]  (what the caller holds)
+    contv = {}         # cid -> [t1 values, t2 values] as fractions / None: the caller's view, for the bookkeeping
+    for cid, c in w["containers"].items():
+        cont[cid] = [_container(c["type"][0], c["t1"]), _container(c["type"][1], c["t2"])]
+        contv[cid] = [unjson_T(c["t1"]), unjson_T(c["t2"])]
+    procs, own = {}, {}
+
+    def cp(T):
+        return list(T) if isinstance(T, list) else T
+
+    def setv(T, q, x):
+        if isinstance(T, list):
+            T[q] = x
+    for k, op in enumerate(w["ops"], 1):
+        if op[0] == "new":
+            _, pid, cid = op
+            procs[pid] = Processor(N, dims=list(dims), t1=cont[cid][0], t2=cont[cid][1])
+            own[pid] = [cp(contv[cid][0]), cp(contv[cid][1])]
+        elif op[0] == "edit_caller":
+            _, cid, q, a, b = op
+            for i, x in enumerate((a, b)):
+                if isinstance(contv[cid][i], list) and x is not None:
+                    cont[cid][i][q] = float(Fraction(x))
+                    contv[cid][i][q] = Fraction(x)
+        elif op[0] == "edit_proc":
+            _, pid, q, a, b = op
+            for i, x in enumerate((a, b)):
+                if isinstance(own[pid][i], list) and x is not None:
+                    (procs[pid].t1 if i == 0 else procs[pid].t2)[q] = float(Fraction(x))
+                    own[pid][i][q] = Fraction(x)
+        elif op[0] == "assign":
+            _, pid, (k1, v1), (k2, v2) = op
+            procs[pid].t1 = _container(k1, v1)
+            procs[pid].t2 = _container(k2, v2)
+            own[pid] = [unjson_T(v1) if k1 != "none" else None, unjson_T(v2) if k2 != "none" else None]
+        elif op[0] == "sim":
+            _, pid, how = op
+            yield k, pid, how, procs[pid], cp(own[pid][0]), cp(own[pid][1])
+
+
 def parse_model(ans):
     if ans.startswith("err "):
         return ans[4:].strip(), None
@@ -552,7 +614,8 @@ class C15(PropertyCheck):
         "QuTiP removes Liouvillian entries below settings.core['auto_tidyup_atol'] = 1e-14 (absolute): for squared prefactors below 1e-12 per time unit the oracle integrates with auto_tidyup off (solver convention outside the code under test; prefactors themselves are compared at full strength)",
         "py/props/c15.py (harness; exceptions canonicalised to {invalidT,t2gt2t1,zerodiv,index})",
     ]
-    assumptions = ["relaxation times are Python floats or ints (numpy scalars behave identically after the patch; sampled)",
+    assumptions = ["contract for construction histories: a processor keeps the relaxation times it was built with (the constructor copies them) until they are changed through its own t1/t2 attribute; containers handed to the t1/t2 SETTER or to RelaxationNoise(...) are kept by reference in the shipped code (candidate fixes/C15-2.patch) and are not edited afterwards by the generated histories",
+                   "relaxation times are Python floats or ints (numpy scalars behave identically after the patch; sampled)",
                    "idle processor (no control pulses) for the decay laws"]
     rule = ("relaxation times span 1e-6 ... 1e12 time units (10-bit dyadic mantissa x 10^k or 2^e, magnitudes independent per "
             "subsystem, each value exactly a float); "
@@ -564,6 +627,8 @@ class C15(PropertyCheck):
             "mixed, GHZ}) with mesolve's rho(t) at 4 times against the explicit solution with the model's prefactors; the "
             "explicit targets = every ordered non-empty subset of the subsystems with per-subsystem lists, RelaxationNoise used "
             "directly and via Processor.add_noise (oracle kind 'targets': one object, repeated uses, other processor sizes); the "
+            "construction histories = several processors built from the same t1/t2 containers (list/ndarray/scalar), in-place edits "
+            "of the caller's container and of other processors' t1/t2, own edits and re-assignments, simulations in between; the "
             "property oracle additionally replays histories (one processor, 0-2 extra noise objects, 1-3 requests)")
 
     # ---------------------------------------------------------------------------------
@@ -681,6 +746,147 @@ class C15(PropertyCheck):
                              f"mesolve's state differs from the explicit solution by {err:.3g}", wit)
                 return
 
+    def _build_case(self, ctx, res, w):
+        dims = w["dims"]
+        inp = {"via": "build", "dims": dims, "containers": w["containers"], "ops": w["ops"]}
+        res.case(inp, nontrivial=True, tags=["build-history", f"N={len(dims)}",
+                                             "types=" + "/".join(sorted({c["type"][0] for c in w["containers"].values()}))])
+        with warnings.catch_warnings():
+            warnings.simplefilter("ignore")
+            try:
+                for k, pid, how, p, e1, e2 in build_history(w):
+                    line = (f"process fixed=1 dims={','.join(map(str, dims))} t1={enc_T(e1)} t2={enc_T(e2)} device=1 noises=-")
+                    model = ctx.driver("drv_noise").run([line])[0]
+                    mst, mels = parse_model(model)
+                    els = [canon_element(e, []) for e in p.get_noisy_pulses(device_noise=True)[-1].lindblad_noise]
+                    if mst != "ok":
+                        res.disagree(inp, model, "ok", f"op {k}: model rejects the processor's own (valid) times", w)
+                        return
+                    bad = None
+                    if len(els) != len(mels):
+                        bad = "number of Lindblad operators"
+                    else:
+                        l2 = e2 if isinstance(e2, list) else [e2] * len(dims)
+                        for (mt, mk, md, mr), (it, ik, idim, ic, probs) in zip(mels, els):
+                            band = 2 / float(l2[mt[0]]) if (mk == "num" and l2[mt[0]]) else 0.0
+                            if probs or mt != it or mk != ik or md != idim or ic == "nan" or mr == "nan" \
+                                    or abs(ic - float(mr)) > 1e-12 * (abs(float(mr)) + band):
+                                bad = f"operator {ik} on {it} with squared prefactor {ic!r}; the times processor {pid} was built with give {mk} on {mt}: {mr}"
+                                break
+                    if bad:
+                        res.disagree(inp, model, str([(tg, kd, d, c) for tg, kd, d, c, _ in els]),
+                                     f"op {k} (sim of processor {pid}): {bad}", w)
+                        return
+            except Exception as e:  # canonicalised
+                res.disagree(inp, "ok", "err " + classify_exc(e), "a valid construction history raised", w)
+
+    def _build_witness(self, rng):
+        dims = [rng.choice([2, 2, 3]) for _ in range(rng.randint(1, 3))]
+        N = len(dims)
+        mag = magnitude(rng)
+
+        def vals(rel=None):
+            ps = [pair(rng, rel or rng.choice(["inside", "inside", "boundary", "near"]), mag) for _ in range(N)]
+            return [x[0] for x in ps], [x[1] for x in ps]
+        conts = {}
+        for cid in ("A", "B")[:rng.randint(1, 2)]:
+            l1, l2 = vals()
+            ty = rng.choice(["list", "list", "ndarray"])
+            shape = rng.choice(["l/l", "l/l", "l/l", "l/none", "s/s"])
+            if shape == "l/l":
+                conts[cid] = {"type": [ty, rng.choice([ty, "list"])], "t1": json_T(l1), "t2": json_T(l2)}
+            elif shape == "l/none":
+                conts[cid] = {"type": [ty, "none"], "t1": json_T(l1), "t2": None}
+            else:
+                conts[cid] = {"type": ["scalar", "scalar"], "t1": json_T(l1[0]), "t2": json_T(l2[0])}
+        ops, pids = [], []
+
+        def new(pid):
+            ops.append(["new", pid, rng.choice(sorted(conts))])
+            pids.append(pid)
+        new("p0")
+        new("p1")
+        for _ in range(rng.randint(2, 5)):
+            q = rng.randrange(N)
+            a, b = pair(rng, rng.choice(["inside", "boundary", "near"]), mag)
+            kind = rng.choice(["edit_caller", "edit_caller", "edit_proc", "edit_proc", "assign", "new", "sim"])
+            cid = rng.choice(sorted(conts))
+            if kind in ("edit_caller", "edit_proc"):
+                c = conts[cid]
+                if c["type"][0] == "scalar":
+                    continue            # scalars are immutable: nothing to edit in place
+                if c["type"][1] == "none":
+                    b = None
+                if kind == "edit_caller":
+                    ops.append(["edit_caller", cid, q, json_T(a), json_T(b)])
+                else:
+                    # only processors built from this very container have that shape for sure
+                    cand = [o[1] for o in ops if o[0] == "new" and o[2] == cid and not any(x[0] == "assign" and x[1] == o[1] for x in ops)]
+                    if cand:
+                        ops.append(["edit_proc", rng.choice(cand), q, json_T(a), json_T(b)])
+            elif kind == "assign":
+                l1, l2 = vals("inside")
+                ty = rng.choice(["list", "ndarray", "scalar"])
+                if ty == "scalar":
+                    ops.append(["assign", rng.choice(pids), ["scalar", json_T(a)], ["scalar", json_T(b)]])
+                else:
+                    ops.append(["assign", rng.choice(pids), [ty, json_T(l1)], [rng.choice([ty, "none"]), json_T(l2)]])
+                if ops[-1][3][0] == "none":
+                    ops[-1][3][1] = None
+            elif kind == "new" and len(pids) < 3:
+                new("p2")
+            elif kind == "sim":
+                ops.append(["sim", rng.choice(pids), rng.choice(["pulses", "qobjevo", "run"])])
+        # the FIRST processor is always simulated at the end, then the others
+        for pid in pids:
+            ops.append(["sim", pid, rng.choice(["qobjevo", "qobjevo", "run", "pulses"])])
+        return {"kind": "build", "dims": dims, "containers": conts, "ops": ops}
+
+    def _build(self, ctx, w):
+        """the property on a construction history: every simulated processor decays with the relaxation times IT was built
+        with / was assigned through its own attribute (exp(-t/t1[q]), exp(-t/t2[q])), whatever happened to the caller's
+        containers and to other processors in between"""
+        qutip = _impl()[0]
+        dims = list(w["dims"])
+        N = len(dims)
+        n = 0
+        try:
+            for k, pid, how, p, e1, e2 in build_history(w):
+                n += 1
+                if valid_times(dims, e1, e2) is not True:
+                    return False, "a processor's own times are not valid: outside the property's class"
+                rates = spec_rates(dims, e1, e2)
+                l1 = e1 if isinstance(e1, list) else [e1] * N
+                l2 = e2 if isinstance(e2, list) else [e2] * N
+                if how == "pulses":
+                    els = [canon_element(e, []) for e in p.get_noisy_pulses(device_noise=True)[-1].lindblad_noise]
+                    for q in range(N):
+                        dsum = sum(c for tg, kd, _, c, _ in els if kd == "destroy" and tg == [q])
+                        nsum = sum(c for tg, kd, _, c, _ in els if kd == "num" and tg == [q])
+                        band = 2 / float(l2[q]) if l2[q] is not None else 0.0
+                        if abs(dsum - rates[q][0]) > 1e-9 * rates[q][0] or abs(nsum - rates[q][1]) > 1e-9 * (rates[q][1] + band):
+                            return True, (f"op {k}: processor {pid} (get_noisy_pulses): subsystem {q} relaxes with rate {dsum:.9g}, "
+                                          f"dephasing prefactor^2 {nsum:.9g}; its own times t1[{q}] = {l1[q]}, t2[{q}] = {l2[q]} "
+                                          f"specify {rates[q][0]:.9g}, {rates[q][1]:.9g}")
+                    continue
+                times = time_grid(dims, e1, e2, fracs=(0.25, 1.0))
+                rho0 = qutip.ket2dm(qutip.tensor([(qutip.basis(d, 0) + qutip.basis(d, 1)).unit() for d in dims]))
+                guard, _ = tidyup_guard([x for pr in rates for x in pr])
+                with guard:
+                    if how == "qobjevo":
+                        H, c_ops = p.get_qobjevo(noisy=True)
+                        states = qutip.mesolve(H, rho0, times, c_ops=c_ops, options=solver_options(dims, e1, e2)).states
+                    else:
+                        states = p.run_state(rho0, tlist=times, options=solver_options(dims, e1, e2)).states
+                g1 = [r[0] for r in rates]
+                g2 = [(1 / float(l2[q])) if l2[q] is not None else g1[q] / 2 for q in range(N)]
+                bad = self._decay_check(dims, times, states, g1, g2)
+                if bad:
+                    return True, (f"op {k}: processor {pid} ({how}), built/assigned with t1 = {json_T(e1)}, t2 = {json_T(e2)}: " + bad)
+        except Exception as e:
+            return True, f"a valid construction history raised {type(e).__name__}: {str(e)[:120]}"
+        return False, f"{n} simulations: every processor decays with its own relaxation times"
+
     def _spec_variants(self, rng, N, rel, mag=None):
         """(t1, t2) argument shapes for N subsystems with every present pair in relation `rel`; the magnitudes of the
         subsystems are independent (1e-6 ... 1e12) unless a common `mag` is given"""
@@ -790,6 +996,15 @@ class C15(PropertyCheck):
                 self._compare(ctx, res, "process", dims, t1, t2, device=False, tags=["random", "nodevice"])
             else:
                 self._compare(ctx, res, rng.choice(vias), dims, t1, t2, numpy_float=True, tags=["random", "numpy-float"])
+        # construction histories: processors built from the same container objects, edits of the caller's container and of
+        # another processor's attribute, re-assignment; at every simulation the operators of the processor against the
+        # model's operators for the times the CONTRACT gives that processor
+        for t in range(120 if ctx.thorough else 40):
+            w = self._build_witness(rng)
+            self._build_case(ctx, res, w)
+        res.notes.append("construction histories: 2-3 processors from the same t1/t2 containers (list / ndarray / scalar), in-place "
+                         "edits of the caller's container and of another processor's t1/t2, own in-place edits and "
+                         "re-assignments; Lindblad operators of each simulated processor against the model for its own times")
         # malformed stream
         for t in range(400 if ctx.thorough else 120):
             dims = rng.choice(all_dims)
@@ -837,6 +1052,8 @@ class C15(PropertyCheck):
                 return self._solution(ctx, w)
             if kind == "targets":
                 return self._targets(ctx, w)
+            if kind == "build":
+                return self._build(ctx, w)
             dims = w["dims"]
             N = len(dims)
             t1, t2 = unjson_T(w["t1"]), unjson_T(w["t2"])
@@ -1041,16 +1258,19 @@ class C15(PropertyCheck):
         # specification, written directly: rates add up over the sources
         g1, g2, n_ops = [0.0] * N, [0.0] * N, 0
         d_rate, n_rate = [0.0] * N, [0.0] * N          # expected sum of squared prefactors of destroy / num per subsystem
+        each = []                                       # squared prefactor of every single operator (QuTiP tidies each one)
         for a, b, tg in sources:
             la = a if isinstance(a, list) else [a] * N
             lb = b if isinstance(b, list) else [b] * N
             for q in (range(N) if tg is None else tg):
                 if la[q] is not None:
+                    each.append(1 / float(la[q]))
                     g1[q] += 1 / float(la[q]); g2[q] += 0.5 / float(la[q]); d_rate[q] += 1 / float(la[q]); n_ops += 1
                 if lb[q] is not None:
                     deph = 1 / float(lb[q]) - (0.5 / float(la[q]) if la[q] is not None else 0.0)
                     if not (la[q] is not None and lb[q] == 2 * la[q]):
                         n_ops += 1
+                        each.append(2 * deph)
                         g2[q] += deph; n_rate[q] += 2 * deph
         ui = 0
         for sp in specs:
@@ -1079,7 +1299,7 @@ class C15(PropertyCheck):
             return True, f"valid processor set-up raised {type(e).__name__}: {str(e)[:100]}"
         opts = {"atol": 1e-11, "rtol": 1e-9, "nsteps": 100000}
         # one more, cheap, request at the end: what the calls left behind must not change the next answer
-        guard, _ = tidyup_guard(d_rate + n_rate)
+        guard, _ = tidyup_guard(each)
         with guard:
             for k, call in enumerate(calls + ["pulses"], 1):
                 states = None
@@ -1258,6 +1478,16 @@ class C15(PropertyCheck):
                   "state": "entangled", "seed": 7},
                  {"kind": "history", "dims": [2], "t1": "2000000000", "t2": "1000000000", "noises": [], "calls": ["pulses", "qobjevo"],
                   "drive": False},
+                 {"kind": "build", "dims": [2, 2],
+                  "containers": {"A": {"type": ["list", "list"], "t1": ["1", "4"], "t2": ["4/5", "2"]}},
+                  "ops": [["new", "p0", "A"], ["new", "p1", "A"], ["edit_proc", "p1", 0, "1/4", "1/5"],
+                          ["edit_caller", "A", 1, "1/2", "3/10"], ["new", "p2", "A"],
+                          ["sim", "p0", "run"], ["sim", "p1", "qobjevo"], ["sim", "p2", "pulses"], ["sim", "p0", "pulses"]]},
+                 {"kind": "build", "dims": [2, 3],
+                  "containers": {"A": {"type": ["ndarray", "ndarray"], "t1": ["2", "3"], "t2": ["1", "6"]}},
+                  "ops": [["new", "p0", "A"], ["new", "p1", "A"], ["edit_caller", "A", 0, "1/2", "1/4"],
+                          ["assign", "p1", ["list", ["5", "5"]], ["none", None]], ["edit_proc", "p1", 1, "7", None],
+                          ["sim", "p0", "qobjevo"], ["sim", "p1", "qobjevo"]]},
                  {"kind": "targets", "t1": ["1", "3", "7/10"], "t2": ["2/5", "5/2", "11/10"], "targets": [2, 1],
                   "uses": [["direct", [2, 2, 2]], ["processor", [2, 2, 2]]]},
                  {"kind": "targets", "t1": ["1", "3", "7/10"], "t2": None, "targets": [2],
@@ -1289,7 +1519,8 @@ class C15(PropertyCheck):
                 yield w, d
         while time.time() - t0 < budget_s:
             w = ctx.rng.choice([self._decay_witness, self._solution_witness, self._history_witness, self._history_witness,
-                                self._targets_witness, self._reject_witness, self._physical_witness])(ctx.rng)
+                                self._targets_witness, self._build_witness, self._reject_witness,
+                                self._physical_witness])(ctx.rng)
             try:
                 f, d = self.oracle_replay(ctx, w)
             except Exception as e:
@@ -1307,6 +1538,17 @@ class C15(PropertyCheck):
                {"kind": "solution", "dims": [2, 2, 2], "t1": ["1", "3", "7/10"], "t2": ["2/5", "5/2", "11/10"], "targets": [2, 1],
                 "state": "entangled", "seed": 9}]
         ws += [self._targets_witness(ctx.rng) for _ in range(12 if ctx.thorough else 5)]
+        ws += [{"kind": "build", "dims": [2, 2],
+                "containers": {"A": {"type": ["list", "list"], "t1": ["1", "4"], "t2": ["4/5", "2"]}},
+                "ops": [["new", "p0", "A"], ["new", "p1", "A"], ["edit_proc", "p1", 0, "1/4", "1/5"],
+                        ["edit_caller", "A", 1, "1/2", "3/10"], ["new", "p2", "A"],
+                        ["sim", "p0", "run"], ["sim", "p1", "qobjevo"], ["sim", "p2", "pulses"], ["sim", "p0", "pulses"]]},
+               {"kind": "build", "dims": [2, 3],
+                "containers": {"A": {"type": ["ndarray", "ndarray"], "t1": ["2", "3"], "t2": ["1", "6"]}},
+                "ops": [["new", "p0", "A"], ["new", "p1", "A"], ["edit_caller", "A", 0, "1/2", "1/4"],
+                        ["assign", "p1", ["list", ["5", "5"]], ["none", None]], ["edit_proc", "p1", 1, "7", None],
+                        ["sim", "p0", "qobjevo"], ["sim", "p1", "qobjevo"]]}]
+        ws += [self._build_witness(ctx.rng) for _ in range(15 if ctx.thorough else 6)]
         ws += [{"kind": "solution", "dims": [2, 2], "t1": ["1", "2"], "t2": ["2", "1"], "state": "ghz", "seed": 4}]
         ws += [self._solution_witness(ctx.rng) for _ in range(12 if ctx.thorough else 5)]
         ws += [self._reject_witness(ctx.rng) for _ in range(12 if ctx.thorough else 6)]
